@@ -93,3 +93,22 @@ package mux
 //@ ensures len(m.pendingPackets) == old(len(m.pendingPackets)) + 1 ==> (forall i int :: 0 <= i && i < len(buf) ==> m.pendingPackets[len(m.pendingPackets)-1][i] == old(buf[i]))
 //@ ensures len(m.pendingPackets) == old(len(m.pendingPackets)) + 1 ==> len(m.pendingPackets) <= 15
 //@ loop 0 invariant m.pendingPackets == old(m.pendingPackets)
+
+// Flushing the queue to a new endpoint keeps arrival order: the queue is walked once, front
+// to back; each datagram is, in that iteration, either handed to the endpoint (an event, ghost
+// counter epWrites, with that very slice) or appended to the end of the list of datagrams that
+// stay queued; the new queue is that list. So both the delivered and the remaining datagrams
+// keep their relative order.
+//@ func (*packetio.Buffer).Write
+//@ trusted
+//@ props C27
+//@ ghost epWrites += 1
+//@ modifies nothing
+//@ func (*Mux).handlePendingPackets
+//@ props C27
+//@ requires m != nil && m.log != nil && endpoint != nil && endpoint.buffer != nil && len(m.pendingPackets) < 1<<30
+//@ atcall (*packetio.Buffer).Write assert sameptr(callarg1, old(m.pendingPackets)[rangeindex]) && len(callarg1) == len(old(m.pendingPackets)[rangeindex]) && callarg0 == endpoint.buffer
+//@ loop 0 invariant m.log != nil && endpoint.buffer == old(endpoint.buffer) && m.pendingPackets == old(m.pendingPackets) && rangeindex < len(m.pendingPackets) && len(pendingPackets) <= rangeindex + 1 && fresh(pendingPackets)
+//@ loop 0 step (ghost(epWrites) == loophead(ghost(epWrites)) + 1 && len(pendingPackets) == loophead(len(pendingPackets))) || (ghost(epWrites) == loophead(ghost(epWrites)) && len(pendingPackets) == loophead(len(pendingPackets)) + 1 && sameptr(pendingPackets[len(pendingPackets)-1], old(m.pendingPackets)[rangeindex]) && len(pendingPackets[len(pendingPackets)-1]) == len(old(m.pendingPackets)[rangeindex]))
+//@ loop 0 break false
+//@ ensures len(m.pendingPackets) <= old(len(m.pendingPackets))
